@@ -84,7 +84,7 @@ def requiredKeys : List String :=
 
 /-- the GENERATED key list of reader `fn` contains every required key -/
 def keysCover (fn : String) : Bool :=
-  match Generated.Frame.groupByKeys.find? (·.1 == fn) with
+  match Generated.FrameKeys.groupByKeys.find? (·.1 == fn) with
   | some (_, ks) => requiredKeys.all ks.contains
   | none => false
 
